@@ -141,6 +141,10 @@ pub struct VmConfig {
     /// This run deliberately exercises a combination listed in known_findings.jsonl.
     #[serde(default)]
     pub kf_probe: bool,
+    /// The programs are allocate / drop-everything / exhaustive-GC cycles whose live set never
+    /// exceeds a fixed fraction of the heap (C09): an OOM or a growing floor is a violation.
+    #[serde(default)]
+    pub reclaim_cycles: bool,
 }
 
 impl Default for VmConfig {
@@ -168,6 +172,7 @@ impl Default for VmConfig {
             tpinning_roots_pct: 0,
             final_gcs: 1,
             kf_probe: false,
+            reclaim_cycles: false,
         }
     }
 }
